@@ -37,6 +37,7 @@ import (
 
 type Cfg struct {
 	Cache, Async, Compress, Lower bool
+	AsyncStruct                   bool // async off is expressed by a non-nil Async{Enable: false} (not part of the model's view)
 	Thr, To                       int // threshold, timeout in 100ms steps
 	Ext                           string
 	Cons                          [NF]string // 4 flags each: index unique upper lower
@@ -74,6 +75,8 @@ func (c *Cfg) applyKV(m map[string]string) {
 			c.Cache = v == "1"
 		case "async":
 			c.Async = v == "1"
+		case "astruct":
+			c.AsyncStruct = v == "1"
 		case "compress":
 			c.Compress = v == "1"
 		case "lower":
@@ -109,6 +112,7 @@ type Exec struct {
 	w        *bufio.Writer
 	rng      *rand.Rand
 	virtual  bool
+	repairTouched bool // the last Repair changed, added or removed an object file
 	lastColl []Flat // what the last Collect / One returned, in the order it was returned
 	lastRev  bool
 	failNext int // arm a storage fault at this FS op index for the next op (-1: none)
@@ -149,6 +153,10 @@ func (e *Exec) ustr(n int) string {
 	}
 	for len(e.uu) <= n {
 		s := fmt.Sprintf("%08x-%04x-4%03x-a%03x-%012x", e.rng.Uint32(), e.rng.Intn(1<<16), e.rng.Intn(1<<12), e.rng.Intn(1<<12), e.rng.Int63n(1<<48))
+		if e.rng.Intn(3) == 0 {
+			// identifiers chosen by the application (Object.Initialize) may be in upper case
+			s = strings.ToUpper(s)
+		}
 		e.uu = append(e.uu, s)
 		e.un[s] = len(e.uu) - 1
 	}
@@ -226,6 +234,26 @@ func (e *Exec) emit(format string, a ...interface{}) {
 	fmt.Fprintln(e.w, l)
 }
 
+// objFilesHash: digest of names and bytes of every entry of the collection directory but schema.json
+func (e *Exec) objFilesHash() string {
+	ents, err := os.ReadDir(e.colDir())
+	if err != nil {
+		return "-"
+	}
+	h := sha256.New()
+	for _, d := range ents {
+		if d.Name() == sod.SchemaFilename {
+			continue
+		}
+		fmt.Fprintf(h, "%s|%v|", d.Name(), d.IsDir())
+		if !d.IsDir() {
+			b, _ := os.ReadFile(filepath.Join(e.colDir(), d.Name()))
+			h.Write(b)
+		}
+	}
+	return hex.EncodeToString(h.Sum(nil))
+}
+
 // safe runs f, converting a panic into the class "panic"
 var panStack string
 
@@ -277,6 +305,9 @@ func (e *Exec) schemaWith(c Cfg) sod.Schema {
 	s.Compress = c.Compress
 	if c.Async {
 		s.Asynchrone(c.Thr, time.Duration(c.To)*100*time.Millisecond)
+	} else if c.AsyncStruct {
+		// asynchronous writes disabled by a non-nil settings value (Enable: false)
+		s.AsyncWrites = &sod.Async{Enable: false, Threshold: 1 + c.Thr, Timeout: time.Duration(1+c.To) * 100 * time.Millisecond}
 	}
 	return s
 }
@@ -497,7 +528,7 @@ func (e *Exec) step(t []string) {
 		}
 		err := db.Create(e.of(), e.schemaWith(c))
 		if err == nil {
-			e.cfg.Cache, e.cfg.Async, e.cfg.Thr, e.cfg.To = c.Cache, c.Async, c.Thr, c.To
+			e.cfg.Cache, e.cfg.Async, e.cfg.Thr, e.cfg.To, e.cfg.AsyncStruct = c.Cache, c.Async, c.Thr, c.To, c.AsyncStruct
 			err2 := db.Create(&shape.Other{}, sod.DefaultSchema)
 			if err2 != nil {
 				e.emit("# create other: %v", err2)
@@ -726,8 +757,10 @@ func (e *Exec) step(t []string) {
 		// the order in which Repair meets unindexed files is Go map order: read it off the
 		// FS log (files it opened), falling back to the ids it assigned
 		before := e.snapshotIds()
+		hashBefore := e.objFilesHash()
 		vshim.StartRecording()
 		err := db.Repair(e.of())
+		e.repairTouched = hashBefore != e.objFilesHash()
 		var opened []string
 		seen := map[string]bool{}
 		for _, ev := range vshim.StopRecording() {
@@ -1107,6 +1140,11 @@ func (e *Exec) schemaDump(path string) {
 			return
 		}
 		async = fmt.Sprintf("%s,%s,%d", b2s(en), thr.String(), int64(d/(100*time.Millisecond)))
+		if !en {
+			// asynchronous writes disabled through a settings value (enable: false): the same
+			// configuration as no settings at all; threshold and timeout are then meaningless
+			async = "none"
+		}
 	}
 	fields, ok := get(top, "fields").(map[string]interface{})
 	if !ok {
@@ -1223,6 +1261,16 @@ func (e *Exec) fileFault(kind string, u int) string {
 func (e *Exec) addFile(f Flat) string {
 	r := flatToRec(f)
 	data, _ := json.Marshal(r)
+	if e.rng.Intn(2) == 0 {
+		// a valid object file that sod did not write itself: indented, with a field unknown to the struct
+		var m map[string]interface{}
+		dec := json.NewDecoder(strings.NewReader(string(data)))
+		dec.UseNumber()
+		if dec.Decode(&m) == nil {
+			m["ZzComment"] = "restored by hand"
+			data, _ = json.MarshalIndent(m, "", "  ")
+		}
+	}
 	path := filepath.Join(e.colDir(), e.fileName(f.U))
 	if strings.HasSuffix(path, ".gz") {
 		var sb strings.Builder
